@@ -52,13 +52,19 @@ def main():
             'engine': 'tlc+replay',
             'level_claimed': {
                 'category': 'model_checking',
-                'text': TEXT[pid] + '. Scenario models: ' + ', '.join(mods) + '. Bounded (alphabets and depth per scenario), exhaustive within the bound: one witness behaviour per edge of the state graph.',
+                'text': TEXT[pid] + '. Scenario models: ' + ', '.join(mods) + '. Bounded (alphabets and depth per scenario), exhaustive within the bound: one witness behaviour per edge of the state graph. '
+                        'In the other direction (code -> spec), seeded random programs ('
+                        + ', '.join(sorted({'%s/%s' % (e['profile'], e['flavour']) for e in props.TV.get(pid, [])}))
+                        + ': long histories, boundary-dense values) are executed on the real code, recorded, and validated by TLC against '
+                        'spec/Trace.tla: every recorded step must be a step the specification allows, and every property formula is '
+                        'evaluated in every state of every recorded execution.',
                 'design_ref': 'DESIGN.md section 0 (as-built status) and sections 2-6',
             },
             'level_note': 'trusted: TLC, the TLA+ model spec/H2.tla + Headers.tla + Scn.tla (as-built, deviation branches marked), '
-                          'harness/wire.py and hpack as independent decoders, the abstraction in harness/absn.py. Divergences on '
-                          'steps reached through a marked deviation (known finding) are not judged.',
-            'technique': 'TLA+ model, TLC invariants, spec-to-code replay of every graph edge with state comparison',
+                          'harness/wire.py and hpack as independent decoders, the abstraction in harness/absn.py. Steps on or after a '
+                          'marked deviation branch (known finding) are judged only while that finding still reproduces exactly as recorded.',
+            'technique': 'explicit TLA+ specification; TLC invariants; spec-to-code replay of every state-graph edge with full state '
+                         'comparison; code-to-spec trace validation of recorded random executions by TLC (spec/Trace.tla)',
         })
     man = {
         'version': 1,
@@ -71,7 +77,7 @@ def main():
             'add_only': True,
         },
         'engines': [{'name': 'tlc+replay', 'path': '/verif/harness/check.py', 'serves_properties': sorted(props.PROPS),
-                     'kind_free_text': 'TLC (explicit-state) on spec/mc/MC_*.tla extending spec/Scn.tla + spec/H2.tla; behaviours replayed into real H2Connection objects by harness/replay.py'}],
+                     'kind_free_text': 'TLC (explicit-state) on spec/mc/MC_*.tla extending spec/Scn.tla + spec/H2.tla; behaviours replayed into real H2Connection objects by harness/replay.py; recorded executions (harness/gen.py) validated by TLC against spec/Trace.tla (harness/tv.py)'}],
         'checks': checks,
         'notes': 'Known findings (genuine defects recorded, not repaired) are in known_findings.json; repaired ones are listed there as fixed. See DESIGN.md section 0.',
         'not_applicable': [{'property_id': k, 'reason': v} for k, v in sorted(props.NOT_APPLICABLE.items())],
